@@ -47,7 +47,7 @@
   composition into `read (write d) = canon d` for SIMUL, MESHM and SHORT, AUTOUGH2 objects and the
   auxiliary files; the binary MESHA/MESHB pair; idempotence of `canonV` on reals (C02's domain).
 -/
-import PyTough.Proofs.T2WholeMesh
+import PyTough.Proofs.T2Whole2Fields
 open Py Model Model.T2 Proofs Proofs.T2 Proofs.Incon
 open Gen.Sections (Rec)
 namespace Props.C01
@@ -534,6 +534,115 @@ theorem whole_fields (d d' : T2Data) :
     rw [if_pos h] at h1
     exact h1
 
+/-- **the whole model, field by field — the remaining nouns of the property** (initial conditions, output times,
+    history requests, selection / diffusion entries, mesh-maker entries, short-output lists, INDOM, the simulator
+    string, the parameter dictionary and time steps): for a section `kw` that occurs once in the written section
+    list (`pre ++ kw :: post`), the field it fills in the object read back is its section theorem's canonical value
+    of the written object's field — starting from the fresh object's empty value; FOFT / GOFT items are resolved
+    against the blocks read if ELEME precedes them and stay bare names otherwise; the parameters are what PARAM's
+    three dictionary lines make of the reader's parameters at that moment (`readerAt`: the defaults, and the flavour
+    SIMUL set). -/
+theorem whole_fields_once (d d' : T2Data) (kw : Str) (pre post : List Str) (hs : d'.sections = pre ++ kw :: post)
+    (hpre : kw ∉ pre) (hpost : kw ∉ post) :
+    (kw = c!"INCON" → (canonWhole d d').incon = canonIncons (writtenIncons d') []) ∧
+    (kw = c!"TIMES" → (canonWhole d d').outputTimes = canonTimes d'.outputTimes ⟨[], none⟩ (d'.outputTimes.time.getD [])) ∧
+    (kw = c!"FOFT" → (canonWhole d d').historyBlock =
+        canonHistory d'.historyBlock (if c!"ELEME" ∈ pre then canonBlocks d'.blocks else [])) ∧
+    (kw = c!"GOFT" → (canonWhole d d').historyGen =
+        canonHistory d'.historyGen (if c!"ELEME" ∈ pre then canonBlocks d'.blocks else [])) ∧
+    (kw = c!"COFT" → (canonWhole d d').historyConn =
+        d'.historyConn.map (fun i => { isObj := false, n1 := cycleName i.n1, n2 := cycleName i.n2 })) ∧
+    (kw = c!"SELEC" → (canonWhole d d').selection = d'.selection.map canonSelection) ∧
+    (kw = c!"DIFFU" → (canonWhole d d').diffusion = d'.diffusion.map (·.map (canonV (mf c!"diffusion" 0)))) ∧
+    (kw = c!"MESHM" → (canonWhole d d').meshmaker = canonMeshMaker d'.meshmaker) ∧
+    (kw = c!"SHORT" → (canonWhole d d').short =
+        (gsOf d'.short).foldl ShortGrp.apply ⟨some (canonFreq d'.short), none, none, none⟩) ∧
+    (kw = c!"SIMUL" → (canonWhole d d').simulator = canonSimulator d') ∧
+    (kw = c!"INDOM" → (canonWhole d d').indom = canonIndom d'.indom []) ∧
+    (kw = c!"PARAM" → (canonWhole d d').parameter = paramAfter3 (pr1 d') pr2 pr3 d' (readerAt d d' pre) ∧
+        (canonWhole d d').timestep = canonTimesteps (pr1 d') pr2 fts d' (readerAt d d' pre) ∧
+        (readerAt d d' pre).parameter = T2Data.empty.parameter) := by
+  have key : ∀ {α : Type} (π : T2Data → α), (∀ x s, π { x with sections := s } = π x) →
+      (∀ k x, k ≠ kw → π (stepCanon d' k x) = π x) →
+      π (canonFrom (stepCanon d') d'.sections (startObj d)) = π (stepCanon d' kw (readerAt d d' pre)) ∧
+      π (readerAt d d' pre) = π (startObj d) := by
+    intro α π h1 h2
+    rw [hs]
+    exact canonFrom_once π (stepCanon d') kw h1 h2 pre post (startObj d) hpre hpost
+  refine ⟨?_, ?_, ?_, ?_, ?_, ?_, ?_, ?_, ?_, ?_, ?_, ?_⟩
+  · rintro rfl
+    obtain ⟨h1, h2⟩ := key T2Data.incon (fun _ _ => rfl) (stepCanon_incon_other d')
+    show (canonFrom (stepCanon d') d'.sections (startObj d)).incon = _
+    rw [h1]
+    show canonIncons (writtenIncons d') (readerAt d d' pre).incon = _
+    rw [h2]; rfl
+  · rintro rfl
+    obtain ⟨h1, h2⟩ := key T2Data.outputTimes (fun _ _ => rfl) (stepCanon_outputTimes_other d')
+    show (canonFrom (stepCanon d') d'.sections (startObj d)).outputTimes = _
+    rw [h1]
+    show canonTimes d'.outputTimes (readerAt d d' pre).outputTimes _ = _
+    rw [h2]; rfl
+  · rintro rfl
+    obtain ⟨h1, _⟩ := key T2Data.historyBlock (fun _ _ => rfl) (stepCanon_historyBlock_other d')
+    show (canonFrom (stepCanon d') d'.sections (startObj d)).historyBlock = _
+    rw [h1]
+    show canonHistory d'.historyBlock (readerAt d d' pre).blocks = _
+    rw [show (readerAt d d' pre).blocks = _ from
+      canonFrom_proj T2Data.blocks _ c!"ELEME" _ (fun _ _ => rfl) (stepCanon_blocks d') pre (startObj d)]
+    rfl
+  · rintro rfl
+    obtain ⟨h1, _⟩ := key T2Data.historyGen (fun _ _ => rfl) (stepCanon_historyGen_other d')
+    show (canonFrom (stepCanon d') d'.sections (startObj d)).historyGen = _
+    rw [h1]
+    show canonHistory d'.historyGen (readerAt d d' pre).blocks = _
+    rw [show (readerAt d d' pre).blocks = _ from
+      canonFrom_proj T2Data.blocks _ c!"ELEME" _ (fun _ _ => rfl) (stepCanon_blocks d') pre (startObj d)]
+    rfl
+  · rintro rfl
+    obtain ⟨h1, _⟩ := key T2Data.historyConn (fun _ _ => rfl) (stepCanon_historyConn_other d')
+    show (canonFrom (stepCanon d') d'.sections (startObj d)).historyConn = _
+    rw [h1]; rfl
+  · rintro rfl
+    obtain ⟨h1, _⟩ := key T2Data.selection (fun _ _ => rfl) (stepCanon_selection_other d')
+    show (canonFrom (stepCanon d') d'.sections (startObj d)).selection = _
+    rw [h1]; rfl
+  · rintro rfl
+    obtain ⟨h1, h2⟩ := key T2Data.diffusion (fun _ _ => rfl) (stepCanon_diffusion_other d')
+    show (canonFrom (stepCanon d') d'.sections (startObj d)).diffusion = _
+    rw [h1]
+    show canonDiffusion d'.diffusion (readerAt d d' pre).diffusion = _
+    rw [h2]; rfl
+  · rintro rfl
+    obtain ⟨h1, h2⟩ := key T2Data.meshmaker (fun _ _ => rfl) (stepCanon_meshmaker_other d')
+    show (canonFrom (stepCanon d') d'.sections (startObj d)).meshmaker = _
+    rw [h1]
+    show (readerAt d d' pre).meshmaker ++ canonMeshMaker d'.meshmaker = _
+    rw [h2]; rfl
+  · rintro rfl
+    obtain ⟨h1, h2⟩ := key T2Data.short (fun _ _ => rfl) (stepCanon_short_other d')
+    show (canonFrom (stepCanon d') d'.sections (startObj d)).short = _
+    rw [h1]
+    show (gsOf d'.short).foldl ShortGrp.apply { (readerAt d d' pre).short with frequency := some (canonFreq d'.short) } = _
+    rw [h2]; rfl
+  · rintro rfl
+    obtain ⟨h1, _⟩ := key T2Data.simulator (fun _ _ => rfl) (stepCanon_simulator_other d')
+    show (canonFrom (stepCanon d') d'.sections (startObj d)).simulator = _
+    rw [h1]; rfl
+  · rintro rfl
+    obtain ⟨h1, h2⟩ := key T2Data.indom (fun _ _ => rfl) (stepCanon_indom_other d')
+    show (canonFrom (stepCanon d') d'.sections (startObj d)).indom = _
+    rw [h1]
+    show canonIndom d'.indom (readerAt d d' pre).indom = _
+    rw [h2]; rfl
+  · rintro rfl
+    obtain ⟨h1, h2⟩ := key T2Data.parameter (fun _ _ => rfl) (stepCanon_parameter_other d')
+    obtain ⟨h3, _⟩ := key T2Data.timestep (fun _ _ => rfl) (stepCanon_timestep_other d')
+    refine ⟨?_, ?_, h2⟩
+    · show (canonFrom (stepCanon d') d'.sections (startObj d)).parameter = _
+      rw [h1]; rfl
+    · show (canonFrom (stepCanon d') d'.sections (startObj d)).timestep = _
+      rw [h3]; rfl
+
 /-- **the second write, for whole objects** (corollary): writing what was read from the first file is writing the
     canonical object — `write (read (write d)) = write (canon d)`, with any arguments of the second `write` -/
 theorem write_read_write_whole_partial (d : T2Data) (cfg : WriteCfg) (d' : T2Data) (f : Files) (hw : d.write cfg = .ok (d', f))
@@ -784,6 +893,16 @@ example : GoodStep exWhole2.updateSections c!"SHORT"
   simp only [List.mem_cons, List.not_mem_nil, or_false] at hn
   subst hn
   exact ⟨⟨rfl, by decide +kernel⟩, by unfold NotSubKw; decide +kernel, by decide +kernel⟩
+
+-- `whole_fields_once` on that object: SHORT occurs once, after ELEME; MESHM once
+example : exWhole2.updateSections.sections =
+      [c!"ROCKS", c!"PARAM", c!"MOMOP", c!"START", c!"ELEME", c!"CONNE", c!"MESHM"] ++ c!"SHORT" :: [] ∧
+    c!"SHORT" ∉ [c!"ROCKS", c!"PARAM", c!"MOMOP", c!"START", c!"ELEME", c!"CONNE", c!"MESHM"] ∧ c!"SHORT" ∉ ([] : List Str) := by
+  refine ⟨by decide +kernel, by decide +kernel, by simp⟩
+example : exWhole2.updateSections.sections =
+      [c!"ROCKS", c!"PARAM", c!"MOMOP", c!"START", c!"ELEME", c!"CONNE"] ++ c!"MESHM" :: [c!"SHORT"] ∧
+    c!"MESHM" ∉ [c!"ROCKS", c!"PARAM", c!"MOMOP", c!"START", c!"ELEME", c!"CONNE"] ∧ c!"MESHM" ∉ [c!"SHORT"] := by
+  refine ⟨by decide +kernel, by decide +kernel, by decide +kernel⟩
 
 -- an AUTOUGH2 object: SIMUL section first, then PARAM read and written with the `param1_autough2` record
 def exAut : T2Data := { exWhole with simulator := c!"AUTOUGH2.2EW" }
